@@ -18,7 +18,16 @@ CLK_TCK = int(_os.environ.get("VF_CLK_TCK", "100") or 100)
 PAGESIZE = 4096
 
 
+CURRENT = [None]        # the world behind the seams (set by Seams.set_world): errors name the path as the CALLER spelt it
+
+
 def oserr(code, path=None):
+    w = CURRENT[0]
+    if isinstance(path, str) and w is not None:
+        if path.startswith("/.nothing-mounted-on-proc"):
+            path = "/proc" + path[len("/.nothing-mounted-on-proc"):]
+        else:
+            path = w.unxlate(path)
     return OSError(code, _os.strerror(code), path)
 
 
